@@ -80,7 +80,16 @@ fn clamp_mag(x: f64, dom: Domain) -> f64 {
 		Domain::Any => m.copysign(x),
 		// volumes: 0 or at least 1e-6 (a dynamic range of volumes beyond 10^18 is not a realistic input and
 		// only measures the cancellation of running volume sums)
-		Domain::NonNegative => m.max(1e-6),
+		// (in a `value_type_f32` build the same argument limits the range to what single precision resolves:
+		// a running volume sum that has seen 1e6 cannot hold 1e-5 afterwards - it cancels to exactly 0 and a
+		// volume-weighted quotient becomes 0/0 - so volumes stay within [1, 1e4] there)
+		Domain::NonNegative => {
+			if std::mem::size_of::<ValueType>() == 4 {
+				m.clamp(1.0, 1e4)
+			} else {
+				m.max(1e-6)
+			}
+		}
 		_ => m,
 	}
 }
